@@ -25,6 +25,11 @@ func (st *State) load(addr Value, t types.Type) Value {
 			panic(st.unsupported(fmt.Sprintf("internal: load of %d cells at %d from object of %d", n, p.Off, len(p.Obj.Cells))))
 		}
 		v, _ := st.unflatten(t, p.Obj.Cells[p.Off:p.Off+n])
+		if nd, ok := v.(*term.Node); ok && nd.Op == term.OpVar && len(st.subst) > 0 {
+			if c, bound := st.subst[nd]; bound {
+				return c
+			}
+		}
 		return v
 	case SymPtr:
 		lo, hi := st.idxRange(p.Idx, p.N)
@@ -560,24 +565,25 @@ func (st *State) evalValue(fr *Frame, instr ssa.Value) Value {
 	case *ssa.IndexAddr:
 		return st.indexAddr(fr, in)
 	case *ssa.Index:
-		x := st.get(fr, in.X)
 		idx := st.toInt64(st.get(fr, in.Index), in.Index.Type())
-		if s, ok := x.(Str); ok {
-			return st.strIndex(s, idx)
-		}
-		arr := x.(Agg)
-		if c, ok := idx.ConstVal(); ok {
-			if int64(c) < 0 || int64(c) >= int64(len(arr)) {
-				st.certainPanic("index out of range")
+		return st.mapMux(st.get(fr, in.X), func(x Value) Value {
+			if s, ok := x.(Str); ok {
+				return st.strIndex(s, idx)
 			}
-			return arr[c]
-		}
-		st.panicIf(b.Ule(b.Const(64, uint64(len(arr))), idx), "index out of range")
-		gs := make([]*term.Node, len(arr))
-		for i := range arr {
-			gs[i] = b.Eq(idx, b.Const(64, uint64(i)))
-		}
-		return st.muxValues(gs, arr)
+			arr := x.(Agg)
+			if c, ok := idx.ConstVal(); ok {
+				if int64(c) < 0 || int64(c) >= int64(len(arr)) {
+					st.certainPanic("index out of range")
+				}
+				return arr[c]
+			}
+			st.panicIf(b.Ule(b.Const(64, uint64(len(arr))), idx), "index out of range")
+			gs := make([]*term.Node, len(arr))
+			for i := range arr {
+				gs[i] = b.Eq(idx, b.Const(64, uint64(i)))
+			}
+			return st.muxValues(gs, arr)
+		})
 	case *ssa.Lookup:
 		return st.lookup(fr, in)
 	case *ssa.MakeMap:
